@@ -22,7 +22,7 @@ for d in sorted(glob.glob(HERE + '/seeded/*/')):
         try:
             r = sh('cd %s && VERIF_BUDGET_S=%s ./check %s quick' % (HERE, budget, prop))
         finally:
-            sh('git -C %s checkout -- .' % REPO)
+            sh('git -C %s checkout -- . && git -C %s clean -fdq' % (REPO, REPO))
         caught = any(l.startswith('VIOLATION') for l in r.stdout.splitlines())
         res.append((sid, prop, ('CAUGHT' if caught else 'MISSED') + ' exit=%d %.0fs' % (r.returncode, time.time() - t0)))
         print(res[-1], flush=True)
